@@ -129,6 +129,21 @@ func (x *executor) intrinsic(m *machine, fr *frame, in ssa.Instruction, res ssa.
 		return true
 	}
 	switch key {
+	case "google.golang.org/protobuf/proto.Unmarshal", "github.com/golang/protobuf/proto.Unmarshal":
+		x.protoUnmarshal(m, fr, in, res, args)
+		return true
+	case "google.golang.org/protobuf/proto.Marshal", "github.com/golang/protobuf/proto.Marshal":
+		// arbitrary fresh bytes, or an error
+		bt := types.NewSlice(types.Typ[types.Uint8])
+		ln := c.d.fresh("marshal_len", c.intSort())
+		st.assume(mkAnd(c.cmp(token.LEQ, c.I(0), ln, intT), c.cmp(token.LEQ, ln, c.I(1<<40), intT)))
+		ref := c.freshRef(st)
+		a := c.arrOf(st, types.Typ[types.Uint8])
+		c.setArr(st, types.Typ[types.Uint8], mkStore(a, ref, c.freshArr("marshal", types.Typ[types.Uint8])))
+		e := c.d.fresh("marshal_err", "Iface")
+		x.externs["proto.Marshal (returns fresh bytes or an error; its inverse relation to Unmarshal is not modelled)"] = true
+		x.setResult(fr, res, []Val{{t: c.mkSlice(ref, c.I(0), ln, ln), typ: bt}, {t: e, typ: errT}})
+		return true
 	case "errors.New":
 		x.setResult(fr, res, []Val{{t: x.freshError(st), typ: errT}})
 		return true
@@ -312,4 +327,55 @@ func (x *executor) constMapLookup(cm *constMap, k *T) (val *T, has *T) {
 		has = mkOr(eq, has)
 	}
 	return
+}
+
+// protoUnmarshal: proto.Unmarshal(b, m) overwrites the message m points to with an arbitrary
+// well-formed message of the same Go type, or returns an error. Well-formed (trusted fact about
+// generated protobuf code): elements of repeated message fields are never nil.
+func (x *executor) protoUnmarshal(m *machine, fr *frame, in ssa.Instruction, res ssa.Value, args []Val) {
+	c := x.c
+	st := m.st
+	errT := types.Universe.Lookup("error").Type()
+	msg := args[1].t.un()
+	var mt types.Type
+	for k, ct := range c.ifaceCtors {
+		if msg.op == ct.name {
+			mt = c.ifaceTypes[k]
+		}
+	}
+	pt, ok := mt.(*types.Pointer)
+	if mt == nil || !ok {
+		panic(unsupported("proto.Unmarshal into a message whose dynamic type is not syntactically known"))
+	}
+	ref := msg.args[0]
+	x.checkFrameRef(m, fr, in, true, heapKey(pt.Elem()), ref)
+	nn := mkNot(mkEq(ref, refConst(0)))
+	x.oblige(m, "nil", x.instrName(fr, in, "nil"), nn, nil, "message pointer is not nil")
+	nv := c.d.fresh("unmarshalled", c.sortOf(pt.Elem()))
+	st.assume(c.valueWF(nv, pt.Elem()))
+	c.setHeap(st, pt.Elem(), mkStore(c.heapOf(st, pt.Elem()), ref, nv))
+	// repeated message fields: no nil elements; they point into memory that existed before (not this call's allocations)
+	su := pt.Elem().Underlying().(*types.Struct)
+	si := c.structOf(pt.Elem())
+	intT := types.Typ[types.Int]
+	for i := 0; i < su.NumFields(); i++ {
+		ft := su.Field(i).Type()
+		sl, ok := ft.Underlying().(*types.Slice)
+		if !ok {
+			continue
+		}
+		if _, isPtr := sl.Elem().Underlying().(*types.Pointer); !isPtr {
+			continue
+		}
+		fv := mkSel(si.ctor, i, nv)
+		qcounter++
+		k := atom(fmt.Sprintf("k!%d", qcounter), c.intSort())
+		el := mkSelect(mkSelect(c.arrOf(st, sl.Elem()), c.slRef(fv)), c.ix(c.slOff(fv), k))
+		body := mkImp(mkAnd(c.cmp(token.LEQ, c.I(0), k, intT), c.cmp(token.LSS, k, c.slLen(fv), intT)), mkNot(mkEq(el, refConst(0))))
+		body = withTriggers(body, []string{k.op})
+		st.assume(app(fmt.Sprintf("forall ((%s %s))", k.op, k.sort), "Bool", body))
+	}
+	x.externs["proto.Unmarshal (overwrites the message with an arbitrary well-formed message of its type, repeated message fields have no nil elements; or returns an error)"] = true
+	e := c.d.fresh("unmarshal_err", "Iface")
+	x.setResult(fr, res, []Val{{t: e, typ: errT}})
 }
